@@ -19,8 +19,8 @@ THEORY_EXTRA = [
 def run_C04(ctx):
     V.build()
     q = ctx.quick()
-    progs = V.tlc_generate(ctx, "program", 150 if q else 2500, 1 if q else 2)
-    progs += V.tlc_generate(ctx, "sysrule", 60 if q else 1476, 2, {"GEN_STRIDE": 197 if q else 1})
+    progs = V.tlc_generate(ctx, "program", 150 if q else 1200, 1 if q else 2)
+    progs += V.tlc_generate(ctx, "sysrule", 60 if q else 738, 2, {"GEN_STRIDE": 197 if q else 2})
     progs += [{"id": f"t{i}", "prog": p} for i, p in enumerate(C.TABLE_PROGRAMS + C04_PROGRAMS)]
     for i, (name, text) in enumerate(V.repo_programs()):
         progs.append({"id": f"repo{i}", "prog": V.strip_comments(text), "origin": name})
@@ -44,7 +44,7 @@ def run_C04(ctx):
             subsets = [subsets[0], subsets[-1]]
         for k, sub in enumerate(subsets):
             cases.append({"id": f"{r['id']}/i{k}", "prog": r["text"] if "\n" not in r["text"] else r["text"], "inputs": sub})
-    theories = V.tlc_generate(ctx, "theory", 160 if q else 3000, 1)
+    theories = V.tlc_generate(ctx, "theory", 160 if q else 1500, 1)
     theories += [{"id": f"te{i}", "theory": t, "inputs": inp} for i, (t, inp) in enumerate(THEORY_EXTRA)]
     recs = V.run_harness(ctx, "completion", cases, tag="-p2") + V.run_harness(ctx, "completion", theories, tag="-th")
     panics = [r for r in recs if r["kind"] == "panic"]
